@@ -1,7 +1,9 @@
 """Evaluate the checks against a seeded change:  /venv/bin/python -m harness.seeded <seeded dir> [ids...] [--tier quick]
 
-Applies seeded/<name>/patch.diff to /repo (working tree only), runs the demonstration and the checks, and ALWAYS
-reverts (`git -C /repo checkout -- .`).  Writes seeded/<name>/result.json."""
+Default: applies seeded/<name>/patch.diff in a scratch git worktree of /repo HEAD (under /tmp, removed afterwards) and
+runs the demonstration and the checks with PYTHONPATH pointing at it (so concurrent work on /repo is not disturbed).
+With --inplace the patch is applied to /repo itself and ALWAYS reverted (`git -C /repo checkout -- .`).
+Writes seeded/<name>/result.json."""
 import json
 import os
 import subprocess
@@ -27,15 +29,26 @@ def main():
     ids = args[1:] or [meta["property"]]
     patch = os.path.join(d, "patch.diff")
     demo = os.path.join(d, "demo.py")
-    if sh(f"git -C {REPO} status --porcelain --untracked-files=no").stdout.strip():
+    inplace = "--inplace" in sys.argv
+    if inplace and sh(f"git -C {REPO} status --porcelain --untracked-files=no").stdout.strip():
         print("refusing: /repo has uncommitted changes")
         return 2
-    res = dict(property=meta["property"], tier=tier, checks={})
-    env = dict(os.environ, PYTHONPATH=REPO)
+    res = dict(property=meta["property"], tier=tier, checks={}, mode="inplace" if inplace else "worktree")
+    target = REPO
+    if not inplace:
+        target = f"/tmp/wt_eval_{os.path.basename(d)}_{os.getpid()}"
+        sh(f"git -C {REPO} worktree remove --force {target}")
+        r = sh(f"git -C {REPO} worktree add -q --detach {target} HEAD")
+        if r.returncode != 0:
+            print("cannot create worktree:", r.stderr)
+            return 2
+        sh(f"cp {REPO}/wannierberri/_version.py {target}/wannierberri/")
+        res["repo_head"] = sh(f"git -C {REPO} log --format=%h -1").stdout.strip()
+    env = dict(os.environ, PYTHONPATH=target)
     if os.path.exists(demo):
         r0 = subprocess.run(["/venv/bin/python", demo], capture_output=True, text=True, env=env, cwd=d)
         res["demo_without_patch"] = r0.returncode
-    ap = sh(f"git -C {REPO} apply {patch}")
+    ap = sh(f"git -C {target} apply {patch}")
     if ap.returncode != 0:
         print("patch does not apply:", ap.stderr)
         return 2
@@ -46,12 +59,15 @@ def main():
             res["demo_output"] = (r1.stdout + r1.stderr)[-600:]
         for pid in ids:
             t0 = time.time()
-            r = subprocess.run([os.path.join(VERIF, "bin", "check"), pid, tier], capture_output=True, text=True, cwd=VERIF)
+            r = subprocess.run([os.path.join(VERIF, "bin", "check"), pid, tier], capture_output=True, text=True, cwd=VERIF, env=env)
             lines = [l for l in r.stdout.splitlines() if l.startswith(("VIOLATION", "  key=", "violation keys", "MACHINERY", "KNOWN-FINDING", "["))]
             res["checks"][pid] = dict(exit=r.returncode, wall_s=round(time.time() - t0, 1), lines=lines[:12])
             print(pid, "exit", r.returncode, f"{time.time() - t0:.0f}s", lines[:3])
     finally:
-        sh(f"git -C {REPO} checkout -- .")
+        if inplace:
+            sh(f"git -C {REPO} checkout -- .")
+        else:
+            sh(f"git -C {REPO} worktree remove --force {target}")
     res["detected_by"] = [p for p, c in res["checks"].items() if c["exit"] == 1]
     with open(os.path.join(d, "result.json"), "w") as f:
         json.dump(res, f, indent=1)
